@@ -42,7 +42,9 @@ func (C19) Generate(c *Ctx, r *Rand, index int) *Scenario {
 		format = "json"
 	}
 	opts := MultiOpts{MaxFiles: 3, MaxDocs: 3, AllowStdin: true, AllowEmpty: false, Format: format, PlainOnly: rs.Chance(1, 2)}
-	e := GenExprWhere(r.Fork("expr"), func(e Expr) bool { return !strings.Contains(e.Family, "error") && !strings.Contains(e.Family, "splitdoc") })
+	e := GenExprWhere(r.Fork("expr"), func(e Expr) bool {
+		return !strings.Contains(e.Family, "error") && !strings.Contains(e.Family, "splitdoc")
+	})
 	out := Pick(rs, []string{"json0", "json0", "json0", "yaml", "props"})
 	var argv []string
 	addOut := func() {
